@@ -198,9 +198,29 @@ LoadLeafXml(v, T, pol) ==
 \* named deviation Dev_JsonBigIntegerIsDouble: an integer literal below -2^63 is read as a floating point number by the JSON parser
 JsonBigNeg(v) == v[1] = "int" /\ v[2] /\ CmpMag(v[3], <<128, 0, 0, 0, 0, 0, 0, 0>>) > 0
 
-LoadLeaf(v, T, pol) ==
-  LET k == v[1] IN
-  IF pol.arch = "xml" THEN LoadLeafXml(v, T, pol)
+\* Further std types of the model are serialized like one of the base target types (optional / smart pointer / atomic like their
+\* value, enum as its registered name, wide string as the text, set / array / deque / list as a sequence); std::pair is an object
+\* with the members "key" and "value", std::tuple an array of its components.
+TypeAlias(T) ==
+  IF T \in {"opt_i32", "uptr_i32", "atomic_i32"} THEN "i32"
+  ELSE IF T \in {"sptr_str", "wstr", "enum_color"} THEN "str"
+  ELSE IF T \in {"set_i32", "arr3_i32", "deque_i32"} THEN "vec_i32"
+  ELSE IF T = "list_str" THEN "vec_str"
+  ELSE T
+EnumColorNames == { <<82, 101, 100>>, <<71, 114, 101, 101, 110>>, <<66, 108, 117, 101>> }      \* "Red" "Green" "Blue"
+ShapeOfPair(v) == v[1] = "map" /\ Len(v[2]) = 2 /\ v[2][1][1] = <<"str", <<107, 101, 121>>>> /\ v[2][2][1] = <<"str", <<118, 97, 108, 117, 101>>>>
+                  /\ v[2][1][2][1] = "str" /\ v[2][2][2][1] = "int"
+ShapeOfTuple(v) == v[1] = "arr" /\ Len(v[2]) = 3 /\ v[2][1][1] = "int" /\ v[2][2][1] = "str" /\ v[2][3][1] = "f64"
+
+LoadLeaf(v, T0, pol) ==
+  LET k == v[1]
+      T == TypeAlias(T0) IN
+  IF T0 = "pair_str_i32" THEN (IF ShapeOfPair(v) /\ IntFits(v[2][2][2][2], v[2][2][2][3], "i32") THEN <<"val", v>> ELSE <<"any">>)
+  ELSE IF T0 = "tuple_i32_str_f64" THEN (IF ShapeOfTuple(v) /\ IntFits(v[2][1][2], v[2][1][3], "i32") THEN <<"val", v>> ELSE <<"any">>)
+  ELSE IF T0 = "enum_color" /\ ~(k = "str" /\ v[2] \in EnumColorNames) THEN <<"any">>
+  ELSE IF T0 # T /\ k = "nil" THEN <<"any">>                    \* null into optional / smart pointer: resets the target (left open here)
+  ELSE IF T0 = "arr3_i32" /\ ~(k = "arr" /\ Len(v[2]) = 3) THEN <<"any">>
+  ELSE IF pol.arch = "xml" THEN LoadLeafXml(v, T, pol)
   ELSE IF pol.arch = "json" /\ pol.dev = "jsonbig" /\ JsonBigNeg(v) /\ T \in (IntTypes \cup {"bool", "f32", "f64"}) THEN
        (IF T \in {"f32", "f64"} THEN <<"any">> ELSE Mismatch(pol))
   ELSE IF T = "null" THEN (IF k = "nil" THEN <<"val", <<"nil">>>> ELSE Mismatch(pol))
